@@ -128,18 +128,22 @@ impl ElfProbe {
     }
 }
 
-/// FBT <byte>: a framebuffer tag with that type byte and a 6-byte colour-info field
+/// FBT <byte> [<hex colour info>]: a framebuffer tag with that type byte and that colour-info field (default: the 6 bytes
+/// 01 00 03 04 05 06; `-` = none, i.e. a tag of exactly the 32 fixed bytes)
 pub fn fbt_case(ctx: &Ctx, t: &[&str]) -> String {
     let b: u8 = t[1].parse().unwrap();
+    let info: Vec<u8> = if t.len() > 2 { crate::util::unhex(t[2]) } else { vec![1, 0, 3, 4, 5, 6] };
     let mut bytes = Vec::new();
     bytes.extend_from_slice(&8u32.to_le_bytes());
-    bytes.extend_from_slice(&38u32.to_le_bytes());
+    bytes.extend_from_slice(&((32 + info.len()) as u32).to_le_bytes());
     bytes.extend_from_slice(&[0u8; 20]);
     bytes.push(32);
     bytes.push(b);
     bytes.extend_from_slice(&[0u8; 2]);
-    bytes.extend_from_slice(&[1, 0, 3, 4, 5, 6]);
-    bytes.extend_from_slice(&[0u8; 2]);
+    bytes.extend_from_slice(&info);
+    while bytes.len() % 8 != 0 {
+        bytes.push(ctx.arena.poison);
+    }
     let p = ctx.arena.place_end(&bytes, 0);
     let slice = unsafe { std::slice::from_raw_parts(p as *const u8, bytes.len()) };
     let r = guarded(|| {
